@@ -14,7 +14,7 @@ use serde::{Deserialize, Serialize};
 pub enum Case {
     Gen { data: Recipe, cfg: Config, sched: Schedule, driver: Driver, set_level: Option<u8> },
     /// metamorphic: incompressible X repeated twice must compress well when matching is enabled
-    Twice { n: u32, seed: u64, level: u8, strategy: u8, zlib: bool, created_at: Option<u8> },
+    Twice { n: u32, seed: u64, level: u8, strategy: u8, zlib: bool, created_at: Option<u8>, #[serde(default)] pad: u32 },
     /// a long run must compress under the run-length strategy
     Run { n: u32, byte: u8, level: u8, zlib: bool },
 }
@@ -61,9 +61,9 @@ impl Prop for P {
         };
         let driver = prop_oneof![Just(Driver::Buf), Just(Driver::Callback), Just(Driver::Stream)];
         let g = (data, config(), schedule(5), driver, proptest::option::weighted(0.15, 0u8..=10)).prop_map(|(data, cfg, sched, driver, set_level)| Case::Gen { data, cfg, sched, driver, set_level });
-        let tw = (200u32..=24_000, any::<u64>(), 1u8..=10, proptest::sample::select(vec![0u8, 1, 4]), any::<bool>(), proptest::option::weighted(0.3, 0u8..=10)).prop_map(|(n, seed, level, strategy, zlib, created_at)| {
-            let n = if level == 1 { 200 + n % 1301 } else { n };
-            Case::Twice { n, seed, level, strategy, zlib, created_at }
+        let tw = (200u32..=24_000, any::<u64>(), 1u8..=10, proptest::sample::select(vec![0u8, 1, 4]), any::<bool>(), proptest::option::weighted(0.3, 0u8..=10), prop_oneof![6 => Just(0u32), 1 => 1u32..=70_000, 2 => 65_000u32..=66_000, 1 => 66_000u32..=140_000]).prop_map(|(n, seed, level, strategy, zlib, created_at, pad)| {
+            let n = if level == 1 { 200 + n % 1301 } else if pad > 0 { n.max(4000) } else { n };
+            Case::Twice { n, seed, level, strategy, zlib, created_at, pad }
         });
         let run = (1000u32..=100_000, any::<u8>(), 1u8..=10, any::<bool>()).prop_map(|(n, byte, level, zlib)| Case::Run { n, byte, level, zlib });
         prop_oneof![16 => g, 3 => tw, 1 => run].boxed()
@@ -71,10 +71,18 @@ impl Prop for P {
     fn check(case: &Case, cx: &mut Ctx) -> Check {
         match case {
             Case::Gen { data, cfg, sched, driver, set_level } => check_gen(data, cfg, sched, *driver, *set_level, cx),
-            Case::Twice { n, seed, level, strategy, zlib, created_at } => {
+            Case::Twice { n, seed, level, strategy, zlib, created_at, pad } => {
                 let mut x = Vec::new();
                 Seg::Random { n: *n, seed: *seed }.append(&mut x);
-                let xx = [x.clone(), x].concat();
+                // X||X may sit behind `pad` unrelated random bytes: the redundancy is then exploited
+                // at stream offsets beyond 32 KiB / 64 KiB as well
+                // (only where the relation is sound: with the Fixed strategy, at level 1's 64 K-token
+                // blocks, or for a short X, sharing a block with incompressible padding can make the
+                // stored fallback the cheaper encoding of that whole block)
+                let pad = if *level >= 2 && *strategy != 4 && *n >= 4000 { *pad } else { 0 };
+                let mut padding = Vec::new();
+                Seg::Random { n: pad, seed: seed.wrapping_mul(0x9e37_79b9).wrapping_add(7) }.append(&mut padding);
+                let xx = [padding.clone(), x.clone(), x].concat();
                 // either created at the level, or created at another level and switched with
                 // set_compression_level_raw before any data (which resets the strategy to Default)
                 let (mut c, strategy) = match created_at {
@@ -90,8 +98,18 @@ impl Prop for P {
                 let run = drive_compress(&mut c, &xx, &Schedule { steps: vec![], finish_out: vec![1 << 20] }, Driver::Buf)?;
                 cx.nontrivial();
                 cx.class(&format!("twice:level{:02}:strategy{}", level, strategy));
-                let limit = xx.len() * 80 / 100 + 16;
-                vensure!(run.out.len() <= limit, format!("c10:redundancy-not-exploited:level{}:strategy{}", if *level == 1 { "1" } else { ">=2" }, strategy), "X||X with |X|={} random bytes at level {level} strategy {strategy} compressed to {} bytes (> 80% of {})", n, run.out.len(), xx.len());
+                // what the padding alone costs (same configuration, fresh compressor)
+                let pad_cost = if padding.is_empty() {
+                    0
+                } else {
+                    let mut c2 = Config { ctor: Ctor::Flags, level: *level as i32, strategy: *strategy as i32, zlib: *zlib, wbits: 15, hand: 0 }.make();
+                    drive_compress(&mut c2, &padding, &Schedule { steps: vec![], finish_out: vec![1 << 20] }, Driver::Buf)?.out.len() + 64 + padding.len() / 1000
+                };
+                if pad > 0 {
+                    cx.class(&format!("twice:behind-padding:{}", match pad { 0..=32767 => "<32K", 32768..=65535 => "32K-64K", _ => ">=64K" }));
+                }
+                let limit = (xx.len() - padding.len()) * 80 / 100 + 16 + pad_cost;
+                vensure!(run.out.len() <= limit, format!("c10:redundancy-not-exploited:level{}:strategy{}", if *level == 1 { "1" } else { ">=2" }, strategy), "{} random bytes, then X||X with |X|={} random bytes, at level {level} strategy {strategy} compressed to {} bytes; the padding alone costs {pad_cost}, so X||X took more than 80% of its {} bytes", pad, n, run.out.len(), xx.len() - padding.len());
                 Ok(())
             }
             Case::Run { n, byte, level, zlib } => {
